@@ -281,6 +281,58 @@ Example C20_pipe_witness :
   frun mt fnew evs = ["a"; "b"].
 Proof. vm_compute. repeat split. Qed.
 
+(* ---- PLAYING the items: "with the stated delay".  play_check judges the stamps taken by the
+        consumers of the real Play's channels, one-sidedly (Model/PlayParse.v).
+        (1) it never blames a Play that keeps every stated delay, whatever the overheads;
+        (2) passing means: every delayed send is handed over no earlier than its stated delay
+            after the earliest possible finish of what came before;
+        (3) and a conditional send hands the checker exactly the stated pattern, count and
+            timeout, and sends only after the checker said "satisfied" ---- *)
+Theorem C20_play_check_accepts_correct_play :
+  forall T its o, plays T its o -> forall tol L, (0 <= tol)%Z -> (L <= T)%Z -> play_check tol L its o = true.
+Proof. exact play_check_accepts_correct_play. Qed.
+Print Assumptions C20_play_check_accepts_correct_play.
+
+Theorem C20_play_check_keeps_stated_delay :
+  forall tol L m d p k Tm r o,
+    complete_cond p k Tm = false ->
+    play_check tol L (ISend m d p k Tm :: r) o = true ->
+    exists ready after ss, o_sent o = (m, ready, after) :: ss /\ (L + d - tol <= after)%Z.
+Proof. exact play_check_keeps_stated_delay. Qed.
+Print Assumptions C20_play_check_keeps_stated_delay.
+
+Theorem C20_play_check_honours_condition :
+  forall tol L m d p k Tm r o,
+    complete_cond p k Tm = true ->
+    play_check tol L (ISend m d p k Tm :: r) o = true ->
+    exists recv sat cs ready after ss,
+      o_cond o = (p, k, Tm, recv, sat) :: cs /\ (L + d - tol <= recv)%Z /\
+      o_sent o = (m, ready, after) :: ss /\ (sat - tol <= after)%Z /\ (L + d - tol <= after)%Z.
+Proof. exact play_check_honours_condition. Qed.
+Print Assumptions C20_play_check_honours_condition.
+
+(* non-vacuity: <'ready',1,30s> start ; [5s] stop - the checker takes 6 s.  Stamps of a correct
+   Play pass; stamps in which "stop" leaves right after "start" (the 5 s swallowed by the time
+   the condition took) do not *)
+Example C20_play_witness :
+  let its := [ISend "start" 0 "ready" 1 30000000000; ISend "stop" 5000000000 "" 0 0] in
+  let good := mkobs [("start", 0, 6000100000); ("stop", 6000200000, 11000300000)]%Z
+                    [("ready", 1, 30000000000, 50000, 6000000000)]%Z [] [] in
+  let early := mkobs [("start", 0, 6000100000); ("stop", 6000200000, 6000300000)]%Z
+                     [("ready", 1, 30000000000, 50000, 6000000000)]%Z [] [] in
+  play_check 1000000 0 its good = true /\ play_check 1000000 0 its early = false /\
+  plays 0 its good.
+Proof.
+  cbv zeta. split; [vm_compute; reflexivity|]. split; [vm_compute; reflexivity|].
+  change (plays 0 [ISend "start" 0 "ready" 1 30000000000; ISend "stop" 5000000000 "" 0 0]
+            (add_cond ("ready", 1, 30000000000, 50000, 6000000000)%Z
+               (add_sent ("start", 0, 6000100000)%Z
+                  (add_sent ("stop", 6000200000, 11000300000)%Z (mkobs [] [] [] []))))).
+  apply P_send_cond with (C := 10000%Z) (S := 6000050000%Z) (H := 6000090000%Z); try reflexivity; try lia.
+  apply P_send with (H := 11000200000%Z); try reflexivity; try lia.
+  constructor.
+Qed.
+
 (* ---- non-vacuity: concrete oracles, the lines of the README and the three former witnesses ---- *)
 Definition ex_pd (s : string) : option Z :=
   if s =? "1.2s" then Some 1200000000%Z else if s =? "100ms" then Some 100000000%Z
